@@ -115,3 +115,5 @@ func verifRecord(ts int64, body string, attrs map[string]string) logstorage.Reco
 	}
 	return logstorage.Record{Timestamp: otelstorage.Timestamp(ts), Body: body, ResourceAttrs: otelstorage.Attrs(m)}
 }
+
+func verifTS(u uint64) otelstorage.Timestamp { return otelstorage.Timestamp(u) }
